@@ -201,9 +201,14 @@ package gomavlib
 // ---------------------------------------------------------------- node loop: write fan-out (C11)
 
 //@ func (*Node).run
+//@   let T = logFind("recv", "terminate", 0)
 //@   ghostlog (*gomavlib.Channel).write, (*gomavlib.Channel).start, (*gomavlib.Channel).close, (*gomavlib.channelProvider).close, (*gomavlib.nodeHeartbeat).close, (*gomavlib.nodeStreamRequest).close
 //@   requires n != nil && n.done != nil && n.chEvent != nil && n.channels != nil
 //@   ensures  [shutdown-last-steps] logIs(logLen()-1, "close", "done") && logIs(logLen()-2, "close", "chEvent") && logCallee(logLen()-3, "sync.WaitGroup.Wait")
+//@   ensures  [modules-are-stopped-right-after-the-termination-signal] logIs(T, "recv", "terminate") &&
+//@              (n.nodeHeartbeat != nil ==> logCallee(T+1, "(*gomavlib.nodeHeartbeat).close")) &&
+//@              (n.nodeHeartbeat != nil && n.nodeStreamRequest != nil ==> logCallee(T+2, "(*gomavlib.nodeStreamRequest).close")) &&
+//@              (n.nodeHeartbeat == nil && n.nodeStreamRequest != nil ==> logCallee(T+1, "(*gomavlib.nodeStreamRequest).close"))
 //@   loop 0 invariant n.channels != nil
 //@   loop 0 modifies *n.channels
 //@   loop 0 body-ensures [to-member-only] logIs(0, "recv", "chWriteTo") && old(mapHasPtr(n.channels, lastRecv("chWriteTo").(writeToReq).ch)) ==>
@@ -213,8 +218,6 @@ package gomavlib
 //@   loop 0 body-ensures [new-channel-registered-and-started] logIs(0, "recv", "chNewChannel") ==> logLen() == 2 &&
 //@                    mapHasPtr(n.channels, lastRecv("chNewChannel").(*Channel)) && logCallee(1, "(*gomavlib.Channel).start") && logArgIsPtr(1, 0, lastRecv("chNewChannel").(*Channel))
 //@   loop 0 body-ensures [closed-channel-forgotten] logIs(0, "recv", "chCloseChannel") ==> logLen() == 1 && !mapHasPtr(n.channels, lastRecv("chCloseChannel").(*Channel))
-//@   loop 0 body-ensures [no-write-without-request] logCount("(*gomavlib.Channel).write") >= 1 ==>
-//@                    logIs(0, "recv", "chWriteTo") || logCallee(0, "range.next")
 //@   loop 1 invariant n.channels != nil
 //@   loop 1 body-ensures [all-each-visited-channel-exactly-once] logLen() == 2 && logCallee(0, "range.next") && logCallee(1, "(*gomavlib.Channel).write") &&
 //@                    logArgIsPtr(1, 0, logArg(0, 1)) && logArg(1, 1) == lastRecv("chWriteAll")
@@ -224,7 +227,11 @@ package gomavlib
 //@                    logArg(1, 1) == lastRecv("chWriteExcept").(writeExceptReq).what
 //@   loop 2 body-ensures [except-excluded-channel-never] logCallee(0, "range.next") && logArg(0, 1).(*Channel) == lastRecv("chWriteExcept").(writeExceptReq).except ==> logLen() == 1
 //@   loop 3 invariant true
+//@   loop 3 body-ensures [every-visited-provider-is-closed] logLen() == 2 && logCallee(0, "range.next") && logCallee(1, "(*gomavlib.channelProvider).close") &&
+//@                    logArgIsPtr(1, 0, logArg(0, 1))
 //@   loop 4 invariant true
+//@   loop 4 body-ensures [every-visited-channel-is-closed] logLen() == 2 && logCallee(0, "range.next") && logCallee(1, "(*gomavlib.Channel).close") &&
+//@                    logArgIsPtr(1, 0, logArg(0, 1))
 //@   modifies ghost:log, *n.channels
 
 // ---------------------------------------------------------------- heartbeats and stream requests (C16)
@@ -332,6 +339,8 @@ package gomavlib
 //@   ensures  [module-failure-other-than-skip-is-returned] logFind("(*gomavlib.nodeHeartbeat).initialize", "", 0) >= 0 &&
 //@              logRetErr(logFind("(*gomavlib.nodeHeartbeat).initialize", "", 0)) != nil &&
 //@              logRetErr(logFind("(*gomavlib.nodeHeartbeat).initialize", "", 0)) != errSkip ==> err != nil
+//@   ensures  [a-failed-endpoint-is-followed-by-cleanup] logLen() >= 1 ==> !logCallee(logLen()-1, "gomavlib.EndpointConf.init") &&
+//@              !logCallee(logLen()-1, "(*gomavlib.channelProvider).initialize")
 //@   ensures  [node-loop-started-last] err == nil ==> logGo(logLen()-1, "(*gomavlib.Node).run")
 //@   canary   err != nil
 //@   canary   err == nil
